@@ -132,6 +132,23 @@ func runC13(c *Ctx) {
 	// entered silently only without an error, the error goes to the scan function
 	rootSilent, rootReported := true, false
 	for _, ret := range ir.NormalReturns(cb) {
+		// every feasible way to this return, with the conditions of the branches taken
+		for _, gs := range c.feasiblePathConds(cb, ret) {
+			isDir, isRoot, errNil := false, false, false
+			for _, g := range gs {
+				switch {
+				case strings.HasPrefix(g, "IsDir(param:info)"):
+					isDir = true
+				case strings.HasPrefix(g, "param:path == "):
+					isRoot = true
+				case g == "nil(param:err)":
+					errNil = true
+				}
+			}
+			if isDir && isRoot && !errNil && ir.IsNilConst(ir.ReturnResult(ret, 0)) {
+				rootSilent = false
+			}
+		}
 		gs := c.guardsOf(cb, ret)
 		isDir, isRoot, errNil, errNonNil := false, false, false, false
 		for _, g := range gs {
@@ -150,9 +167,7 @@ func runC13(c *Ctx) {
 			continue
 		}
 		rv := ir.ReturnResult(ret, 0)
-		if ir.IsNilConst(rv) && !errNil {
-			rootSilent = false
-		}
+		_ = errNil
 		if call, ok := rv.(*ssa.Call); ok && errNonNil && scanFnCall(rv) && len(call.Call.Args) == 4 &&
 			call.Call.Args[0] == ssa.Value(cb.Params[0]) && ir.IsNilConst(call.Call.Args[2]) && call.Call.Args[3] == ssa.Value(cb.Params[2]) {
 			rootReported = true
@@ -631,4 +646,53 @@ func c13ClearedInPlace(c *Ctx, refresh *ssa.Function, field string) bool {
 		}
 	})
 	return ok && n > 0
+}
+
+// feasiblePathConds lists, for every acyclic path from the entry of fn to instruction `to`,
+// the decoded conditions of the branches taken, leaving out paths that take a condition
+// and its opposite (`case a && b:` followed by `case a:` reaches the second only with !b).
+func (c *Ctx) feasiblePathConds(fn *ssa.Function, to ssa.Instruction) [][]string {
+	var out [][]string
+	loops := ir.Loops(fn)
+	on := map[*ssa.BasicBlock]bool{}
+	var conds []string
+	n := 0
+	var rec func(b *ssa.BasicBlock)
+	rec = func(b *ssa.BasicBlock) {
+		if on[b] || n > 20000 {
+			return
+		}
+		n++
+		if b == to.Block() {
+			out = append(out, append([]string{}, conds...))
+			return
+		}
+		on[b] = true
+		defer func() { on[b] = false }()
+		if iff, ok := b.Instrs[len(b.Instrs)-1].(*ssa.If); ok && b.Succs[0] != b.Succs[1] {
+			for k := 0; k < 2; k++ {
+				d := c.condDesc(iff, k, loops)
+				contra := false
+				for _, g := range conds {
+					if g == negDesc(d) {
+						contra = true
+					}
+				}
+				if contra {
+					continue
+				}
+				conds = append(conds, d)
+				rec(b.Succs[k])
+				conds = conds[:len(conds)-1]
+			}
+			return
+		}
+		for _, s := range b.Succs {
+			rec(s)
+		}
+	}
+	if len(fn.Blocks) > 0 {
+		rec(fn.Blocks[0])
+	}
+	return out
 }
